@@ -163,6 +163,17 @@ def _create_journal(journalFile=None):
 # serializer observer
 
 
+EMU = {'on': False, 'next_pid': 10 ** 7}
+
+
+class _ChildExit(BaseException):
+    """os._exit() of an emulated snapshot child (BaseException: the library's `except Exception` must not see it)."""
+
+    def __init__(self, status):
+        BaseException.__init__(self, status)
+        self.status = status
+
+
 CHILDREN = {}        # pid -> {'pid', 'wfd', 'due', 'proc', 'id'}: snapshot children of fork mode that have not been reaped
 
 
@@ -181,12 +192,19 @@ class _ForkOs(object):
     def __getattr__(self, n):
         return getattr(os, n)
 
+    def _exit(self, status):
+        if EMU['on']:
+            raise _ChildExit(status)
+        os._exit(status)
+
     def fork(self):
         import sys
         from . import storage
         p = CUR
         if p is not None and p.dead:
             raise SimKill()
+        if EMU['on']:
+            return 0          # emulated child: the caller (ObsSerializer.serialize) runs the child's code in this process
         try:
             sys.stdout.flush()
             sys.stderr.flush()
@@ -200,17 +218,7 @@ class _ForkOs(object):
             _, status = os.waitpid(pid, 0)
         except OSError:
             status = 0x7f00
-        dur = SIM.fork_rng.choice([0.0, 0.0, 0.03, 0.3, 1.5, 6.0]) if SIM is not None else 0.0
-        ch = {'pid': pid, 'status': status, 'due': CLK.now + dur, 'proc': p, 't0': CLK.now,
-              'parked': (p.conf.fullDumpFile + storage.CHILD_SUFFIX) if p is not None and p.conf.fullDumpFile else None}
-        # fault: the child alone is killed by a signal (out-of-memory killer on the copy-on-write child, an operator's
-        # kill) while its parent lives on and reaps it
-        ch['doomed'] = SIM is not None and SIM.cfg.get('child_faults', True) and SIM.fork_rng.random() < 0.12
-        CHILDREN[pid] = ch
-        if p is not None:
-            p.child = ch
-        if SIM is not None:
-            SIM.mon.obs['fork_children'] += 1
+        register_child(p, pid, status, real=True)
         return pid
 
     def waitpid(self, pid, flags):
@@ -236,6 +244,22 @@ class _ForkOs(object):
         if SIM is not None:
             SIM.mon.sit['fork_child_stopped_by_parent'] += 1
         return None
+
+
+def register_child(p, pid, status, real):
+    from . import storage
+    dur = SIM.fork_rng.choice([0.0, 0.0, 0.03, 0.3, 1.5, 6.0]) if SIM is not None else 0.0
+    ch = {'pid': pid, 'status': status, 'due': CLK.now + dur, 'proc': p, 't0': CLK.now, 'real': real,
+          'parked': (p.conf.fullDumpFile + storage.CHILD_SUFFIX) if p is not None and p.conf.fullDumpFile else None}
+    # fault: the child alone is killed by a signal (out-of-memory killer on the copy-on-write child, an operator's
+    # kill) while its parent lives on and reaps it
+    ch['doomed'] = SIM is not None and SIM.cfg.get('child_faults', True) and SIM.fork_rng.random() < 0.12
+    CHILDREN[pid] = ch
+    if p is not None:
+        p.child = ch
+    if SIM is not None:
+        SIM.mon.obs['fork_children' if real else 'fork_children_emulated'] += 1
+    return ch
 
 
 def finish_child(ch, let_run):
@@ -284,15 +308,37 @@ class ObsSerializer(_ORIG_SERIALIZER):
                 # real forks are expensive where many workers fork at once (about 300 ms each with 16 busy workers of this
                 # sandbox): a run gets a budget of them, afterwards its nodes write their snapshots inline
                 if SIM.forks_left <= 0:
-                    self._Serializer__useFork = False
-                    SIM.mon.obs['fork_budget_exhausted_inline_from_now'] += 1
-                else:
-                    SIM.forks_left -= 1
+                    return self.serialize_in_emulated_child(p, data, id)
+                SIM.forks_left -= 1
         try:
             return _ORIG_SERIALIZER.serialize(self, data, id)
         finally:
-            if storage.IN_CHILD:        # a snapshot child never returns into the simulation
+            if storage.IN_CHILD and not EMU['on']:        # a snapshot child never returns into the simulation
                 os._exit(70)
+
+    def serialize_in_emulated_child(self, p, data, id):
+        """The budget of real forks of this run is used up: the child's part of Serializer.serialize runs in this process -
+        fork() answers 0, the rename is parked as for a real child, os._exit() ends it - and the parent's part (remember the
+        pid, return) is done here.  What the library observes is the same: a child that holds the state of this instant
+        and finishes at a drawn later instant."""
+        from . import storage
+        EMU['on'] = True
+        storage.IN_CHILD = True
+        status = 0
+        try:
+            _ORIG_SERIALIZER.serialize(self, data, id)
+            status = 0x7f00          # (the child's code returned instead of exiting)
+        except _ChildExit as e:
+            status = (e.status & 0xff) << 8
+        finally:
+            storage.IN_CHILD = False
+            EMU['on'] = False
+        EMU['next_pid'] += 1
+        pid = EMU['next_pid']
+        register_child(p, pid, status, real=False)
+        self._Serializer__pid = pid
+        self._Serializer__currentID = id
+        return None
 
     def deserialize(self):
         data = _ORIG_SERIALIZER.deserialize(self)
@@ -705,7 +751,7 @@ class Sim(object):
         import pysyncobj.serializer as _SERMOD
         _SERMOD.os = _ForkOs()
         self.fork_rng = random.Random(seed * 7919 + 5)
-        self.forks_left = cfg.get('fork_budget', 3)
+        self.forks_left = cfg.get('fork_budget', 1)
         S.createPoller = lambda t: NullPoller()
         install_virtual_time(self._battery_sleep)
         self.msg_cap = cfg.get('msg_cap', 400000)
@@ -741,6 +787,7 @@ class Sim(object):
             logCompactionMinEntries=c.get('compact_min', 10 ** 9),
             logCompactionMinTime=c.get('compact_time', 10 ** 9),
             logCompactionBatchSize=c.get('chunk', 2 ** 16),
+            logCompactionSplit=c.get('compact_split', False),
             leaderFallbackTimeout=c.get('fallback', 30.0),
             commandsQueueSize=c.get('queue', 100000),
             commandsWaitLeader=c.get('wait_leader', True),
